@@ -353,6 +353,7 @@ pub fn generate(thorough: bool) -> Vec<Dup> {
     }
 
     // ---- 6/7. query carrier: the first value of each repeated X-Amz-* parameter counts
+    let start_67 = out.len();
     let d8 = now.date8();
     let valid_cred = format!("{}/{}/us-east-1/service/aws4_request", e2e::ACCESS_KEY, d8);
     let qparams: Vec<(&str, String, Vec<String>)> = vec![
@@ -433,6 +434,57 @@ pub fn generate(thorough: bool) -> Vec<Dup> {
             expect_ask: Some((e2e::ACCESS_KEY.into(), None)),
             expect_both_carriers: false,
         });
+    }
+
+    // ---- 6/7 (b). the same with one of the occurrences spelled differently on the wire (escaped '-' in the name,
+    //      either hex case): which occurrence is first is a matter of position in the query string, not of spelling
+    {
+        let names = ["X-Amz-Algorithm", "X-Amz-Credential", "X-Amz-Date", "X-Amz-SignedHeaders", "X-Amz-Security-Token", "X-Amz-Signature"];
+        let respell_nth = |uri: &str, pname: &str, nth: usize, esc: &str| -> Option<String> {
+            let needle = format!("{}=", pname);
+            let mut from = 0;
+            let mut seen = 0;
+            while let Some(p) = uri[from..].find(&needle) {
+                let at = from + p;
+                let boundary = at > 0 && matches!(uri.as_bytes()[at - 1], b'?' | b'&');
+                if boundary {
+                    if seen == nth {
+                        let new_name = pname.replace('-', esc);
+                        return Some(format!("{}{}{}", &uri[..at], new_name, &uri[at + pname.len()..]));
+                    }
+                    seen += 1;
+                }
+                from = at + needle.len();
+            }
+            None
+        };
+        let mut extra: Vec<Dup> = Vec::new();
+        for d in &out[start_67..] {
+            if !d.label.contains(" x2 ") {
+                continue;
+            }
+            let pname = match names.iter().find(|n| d.label.starts_with(**n)) {
+                Some(n) => *n,
+                None => continue,
+            };
+            for nth in 0..2 {
+                for esc in ["%2D", "%2d"] {
+                    if let Some(u) = respell_nth(&d.wire.uri, pname, nth, esc) {
+                        let mut w = d.wire.clone();
+                        w.uri = u;
+                        extra.push(Dup {
+                            label: format!("{} [occurrence {} spelled with {}]", d.label, nth, esc),
+                            wire: w,
+                            cfg: d.cfg.clone(),
+                            expect_ok: d.expect_ok,
+                            expect_ask: d.expect_ask.clone(),
+                            expect_both_carriers: d.expect_both_carriers,
+                        });
+                    }
+                }
+            }
+        }
+        out.extend(extra);
     }
 
     // ---- 8. both carriers at once: refused, provider untouched
@@ -739,7 +791,7 @@ pub fn run(ctx: &Ctx) -> Report {
     });
     Report {
         stats: st,
-        rule: "for each duplicable input — Authorization header (4 decoy kinds, with/without interleaved headers); Credential / SignedHeaders / Signature inside it (2 separators), the same with 0..9 unknown fields in front and 0..300 unknown fields between the two occurrences (field counts across 8, 16, 32, 64, 256), and differently-cased look-alikes of those names before/after the real ones (24 runs each); X-Amz-Date header (signed or not); X-Amz-Date vs Date in both orders; X-Amz-Security-Token header; query X-Amz-Algorithm / -Credential / -Date / -SignedHeaders / -Security-Token (adjacent or spread) and X-Amz-Signature — 2 or 3 occurrences with differing values and the single valid value at every position; the request is signed as received (all values in the canonical form) with the valid occurrence's data, so it validates iff the documented rule selects that occurrence; each X-Amz-* parameter once in the URL and once in a folded form body (valid one in either place, body with fewer or more names than the URL); inputs of the carrier that is NOT in use present as decoys (X-Amz-* query parameters next to an Authorization header; date / token / credential headers next to query authentication); plus Authorization together with X-Amz-Algorithm (3 values) in the URL, in a folded body and as a complete second authentication; thorough adds all pairs of duplicated date x token. Oracle: generator's expectation (independent of the reference verifier, and cross-checked against it), error kind and provider identity. states = (stage, identity seen by provider)".into(),
+        rule: "for each duplicable input — Authorization header (4 decoy kinds, with/without interleaved headers); Credential / SignedHeaders / Signature inside it (2 separators), the same with 0..9 unknown fields in front and 0..300 unknown fields between the two occurrences (field counts across 8, 16, 32, 64, 256), and differently-cased look-alikes of those names before/after the real ones (24 runs each); X-Amz-Date header (signed or not); X-Amz-Date vs Date in both orders; X-Amz-Security-Token header; query X-Amz-Algorithm / -Credential / -Date / -SignedHeaders / -Security-Token (adjacent or spread) and X-Amz-Signature, also with either occurrence's name spelled with escaped hyphens — 2 or 3 occurrences with differing values and the single valid value at every position; the request is signed as received (all values in the canonical form) with the valid occurrence's data, so it validates iff the documented rule selects that occurrence; each X-Amz-* parameter once in the URL and once in a folded form body (valid one in either place, body with fewer or more names than the URL); inputs of the carrier that is NOT in use present as decoys (X-Amz-* query parameters next to an Authorization header; date / token / credential headers next to query authentication); plus Authorization together with X-Amz-Algorithm (3 values) in the URL, in a folded body and as a complete second authentication; thorough adds all pairs of duplicated date x token. Oracle: generator's expectation (independent of the reference verifier, and cross-checked against it), error kind and provider identity. states = (stage, identity seen by provider)".into(),
         bounds: json!({"cases": n, "occurrences": [2, 3]}),
         exhaustive: true,
         assumptions: vec![],
